@@ -1,0 +1,1128 @@
+//! Verification harness for property C18 (test-only; see /verif): the ICS-20 application layer.
+//!
+//! Drives the real `Ics20Transfer::{recv_packet_check, recv_packet_execute,
+//! acknowledge_packet_check, acknowledge_packet_execute, timeout_packet_check,
+//! timeout_packet_execute}` callbacks on a `StateDelta` over the working state of a real `App`
+//! (genesis and channel set-up are reused from the sibling harness `app::verif`), and executes
+//! outgoing `Ics20Withdrawal`s as signed transactions through `CheckedTransaction::new` +
+//! `App::execute_transaction`.  The IBC-core proof verification is outside the property and is
+//! not exercised.
+//!
+//! Reads an op script from `$VERIF_IN`, writes canonical observation lines to `$VERIF_OUT`.
+//! Run with:
+//! `cargo test --offline -p astria-sequencer --features verif --lib app::verif_c18::drive -- --exact`
+#![allow(
+    clippy::pedantic,
+    clippy::arithmetic_side_effects,
+    clippy::too_many_lines,
+    dead_code
+)]
+
+use std::{
+    collections::HashMap,
+    fmt::Write as _,
+    panic::AssertUnwindSafe,
+    sync::Arc,
+};
+
+use astria_core::{
+    primitive::v1::{
+        asset::{
+            Denom,
+            IbcPrefixed,
+            TracePrefixed,
+        },
+        Address,
+        Bech32,
+        Bech32m,
+        RollupId,
+        TransactionId,
+    },
+    protocol::{
+        fees::v1::FeeComponents,
+        memos::v1::{
+            Ics20TransferDeposit,
+            Ics20WithdrawalFromRollup,
+        },
+        transaction::v1::{
+            action::Ics20Withdrawal,
+            TransactionBodyBuilder,
+        },
+    },
+    Protobuf as _,
+};
+use bytes::Bytes;
+use cnidarium::StateRead;
+use futures::{
+    FutureExt as _,
+    StreamExt as _,
+};
+use ibc_types::{
+    core::{
+        channel::{
+            msgs::{
+                MsgAcknowledgement,
+                MsgRecvPacket,
+                MsgTimeout,
+            },
+            packet::Sequence,
+            ChannelId,
+            Packet,
+            PortId,
+            TimeoutHeight,
+        },
+        client::Height as IbcHeight,
+        commitment::MerkleProof,
+    },
+    timestamp::Timestamp,
+    transfer::acknowledgement::TokenTransferAcknowledgement,
+};
+use penumbra_ibc::component::app_handler::{
+    AppHandlerCheck as _,
+    AppHandlerExecute as _,
+};
+use penumbra_proto::core::component::ibc::v1::FungibleTokenPacketData;
+use prost::Message as _;
+use tendermint::abci::Event;
+
+use super::verif::{
+    debug_enabled,
+    error_chain,
+    Chain,
+    Harness,
+    KeyValues,
+    PResult,
+    CHAIN_ID,
+};
+use crate::{
+    accounts::{
+        StateReadExt as _,
+        StateWriteExt as _,
+    },
+    assets::{
+        StateReadExt as _,
+        StateWriteExt as _,
+    },
+    bridge::{
+        StateReadExt as _,
+        StateWriteExt as _,
+    },
+    checked_transaction::CheckedTransaction,
+    fees::StateWriteExt as _,
+    ibc::{
+        ics20_transfer::Ics20Transfer,
+        StateReadExt as _,
+        StateWriteExt as _,
+    },
+    test_utils::{
+        astria_compat_address,
+        ASTRIA_COMPAT_PREFIX,
+        ASTRIA_PREFIX,
+    },
+};
+
+/// Table accounts whose balances are dumped.
+const DUMP_ACCOUNTS: std::ops::RangeInclusive<usize> = 1..=9;
+
+struct Driver {
+    h: Harness,
+    /// Denominations named in the script (`denoms` lines), in declaration order.
+    universe: Vec<TracePrefixed>,
+    by_hash: HashMap<IbcPrefixed, String>,
+    /// Channel numbers whose escrow balances are dumped (sequencer and counterparty ids).
+    channels: Vec<u64>,
+    /// Packets actually sent by successful withdrawals, by withdrawal id.
+    sent: HashMap<String, Packet>,
+    /// All deposit events applied to the working state so far.
+    events: Vec<String>,
+    began: bool,
+    counter: u8,
+    /// Chains of earlier cases, by "Blackburn active": all case activity stays in the app's
+    /// uncommitted working state, so a chain is reused after resetting that working state to the
+    /// committed snapshot (`App::update_state_for_new_round`, what a new consensus round does).
+    stash: HashMap<bool, Chain>,
+    current_bb: bool,
+    /// `Display` form of `RollupId::new([k; 32])` -> `r<k>`.
+    rollup_names: HashMap<String, String>,
+}
+
+fn show_dest(dest: &str) -> String {
+    if dest.is_empty() {
+        "-".to_string()
+    } else if dest.len() > 24 || dest.chars().any(char::is_whitespace) {
+        format!("len{}", dest.len())
+    } else {
+        dest.to_string()
+    }
+}
+
+fn attribute(event: &Event, key: &str) -> Option<String> {
+    event
+        .attributes
+        .iter()
+        .find(|attribute| attribute.key_bytes() == key.as_bytes())
+        .map(|attribute| String::from_utf8_lossy(attribute.value_bytes()).into_owned())
+}
+
+fn empty_proof() -> MerkleProof {
+    MerkleProof {
+        proofs: vec![],
+    }
+}
+
+impl Driver {
+    fn new() -> Self {
+        Self {
+            h: Harness::new(),
+            universe: Vec::new(),
+            by_hash: HashMap::new(),
+            channels: Vec::new(),
+            sent: HashMap::new(),
+            events: Vec::new(),
+            began: false,
+            counter: 0,
+            stash: HashMap::new(),
+            current_bb: false,
+            rollup_names: (0..=255u8)
+                .map(|k| (RollupId::new([k; 32]).to_string(), format!("r{k}")))
+                .collect(),
+        }
+    }
+
+    fn emit(&mut self, line: impl AsRef<str>) {
+        self.h.emit(line);
+    }
+
+    /// Puts the current chain (if any) aside for reuse; its uncommitted working state is
+    /// discarded when it is taken out again.
+    fn stash_chain(&mut self) {
+        if let Some(chain) = self.h.chain.take() {
+            self.stash.insert(self.current_bb, chain);
+        }
+    }
+
+    async fn run_line(&mut self, line: &str) {
+        let tokens: Vec<&str> = line.split_whitespace().collect();
+        let Some((&op, args)) = tokens.split_first() else {
+            return;
+        };
+        if op.starts_with('#') {
+            return;
+        }
+        let mark = self.h.out.len();
+        let result = AssertUnwindSafe(self.run_op(op, args, line))
+            .catch_unwind()
+            .await;
+        match result {
+            Ok(Ok(())) => {}
+            Ok(Err(message)) => {
+                if debug_enabled() {
+                    eprintln!("[verif] parse error in `{line}`: {message}");
+                }
+                self.h.out.truncate(mark);
+                self.emit(format!("{op} parseerr"));
+            }
+            Err(_) => {
+                self.h.out.truncate(mark);
+                self.emit(format!("{op} panic"));
+                // The app may have been left half-way through an operation: do not reuse it.
+                self.h.chain = None;
+            }
+        }
+    }
+
+    async fn run_op(&mut self, op: &str, args: &[&str], line: &str) -> PResult<()> {
+        match op {
+            "case" => {
+                self.universe.clear();
+                self.by_hash.clear();
+                self.channels.clear();
+                self.sent.clear();
+                self.events.clear();
+                self.began = false;
+                self.counter = 0;
+                self.stash_chain();
+                self.emit(line.trim());
+                Ok(())
+            }
+            "chain" => self.op_chain(args).await,
+            "denoms" => self.op_denoms(args),
+            _ if self.h.chain.is_none() => {
+                self.emit(format!("{op} nochain"));
+                Ok(())
+            }
+            "chan" => self.op_chan(args).await,
+            "reg" | "feeasset" | "bal" | "esc" | "bridge" | "dis" => {
+                self.op_write(op, args).await
+            }
+            "dump" => {
+                self.emit("dump");
+                self.dump_working().await
+            }
+            "wd" => self.op_wd(args).await,
+            "recv" => self.op_recv(args).await,
+            "ack" | "timeout" => self.op_refund(op, args).await,
+            other => Err(format!("unknown op `{other}`")),
+        }
+    }
+
+    // -----------------------------------------------------------------------------------------
+    // naming
+    // -----------------------------------------------------------------------------------------
+
+    fn trace(token: &str) -> PResult<TracePrefixed> {
+        token
+            .parse::<TracePrefixed>()
+            .map_err(|e| format!("bad denom `{token}`: {e}"))
+    }
+
+    /// `<denom>` or `ibc:<denom>` (the `ibc/<hash>` form of `<denom>`).
+    fn denom(token: &str) -> PResult<Denom> {
+        if let Some(rest) = token.strip_prefix("ibc:") {
+            Ok(Denom::IbcPrefixed(Self::trace(rest)?.to_ibc_prefixed()))
+        } else {
+            Ok(Denom::TracePrefixed(Self::trace(token)?))
+        }
+    }
+
+    /// The `denom` string of packet data: `<denom>`, `ibc:<denom>`, or `bad:<k>`.
+    fn packet_denom(token: &str) -> PResult<String> {
+        if let Some(kind) = token.strip_prefix("bad:") {
+            return Ok(match kind {
+                "0" => String::new(),
+                "1" => "transfer/uatom".to_string(),
+                "2" => "ibc/zz".to_string(),
+                "3" => "has space".to_string(),
+                "4" => format!("ibc/{}", "ab".repeat(32)),
+                "5" => "transfer/channel-0/".to_string(),
+                other => return Err(format!("bad denom kind `{other}`")),
+            });
+        }
+        Ok(Self::denom(token)?.to_string())
+    }
+
+    /// An address string inside packet data: `aK`, `compat:aK`, `bad:<k>`.
+    fn packet_address(&self, token: &str) -> PResult<String> {
+        if let Some(kind) = token.strip_prefix("bad:") {
+            let bytes = self.h.names.addresses[1].bytes();
+            return Ok(match kind {
+                "0" => String::new(),
+                "1" => "garbage".to_string(),
+                "2" => Address::<Bech32m>::builder()
+                    .prefix("other")
+                    .array(bytes)
+                    .try_build()
+                    .map_err(|e| e.to_string())?
+                    .to_string(),
+                "3" => Address::<Bech32m>::builder()
+                    .prefix(ASTRIA_COMPAT_PREFIX)
+                    .array(bytes)
+                    .try_build()
+                    .map_err(|e| e.to_string())?
+                    .to_string(),
+                "4" => Address::<Bech32>::builder()
+                    .prefix(ASTRIA_PREFIX)
+                    .array(bytes)
+                    .try_build()
+                    .map_err(|e| e.to_string())?
+                    .to_string(),
+                other => return Err(format!("bad address kind `{other}`")),
+            });
+        }
+        if let Some(rest) = token.strip_prefix("compat:") {
+            let address = self.h.names.address(rest)?;
+            return Ok(astria_compat_address(&address.bytes()).to_string());
+        }
+        Ok(self.h.names.address(token)?.to_string())
+    }
+
+    fn show_asset(&self, asset: &IbcPrefixed) -> String {
+        match self.by_hash.get(asset) {
+            Some(name) => name.clone(),
+            None => format!("?{}", &hex::encode(asset.as_bytes())[..16]),
+        }
+    }
+
+    fn channel_id(number: u64) -> ChannelId {
+        ChannelId(format!("channel-{number}"))
+    }
+
+    fn next_tx_id(&mut self) -> TransactionId {
+        self.counter = self.counter.wrapping_add(1);
+        TransactionId::new([self.counter; 32])
+    }
+
+    // -----------------------------------------------------------------------------------------
+    // set-up ops
+    // -----------------------------------------------------------------------------------------
+
+    /// `chain bb=<0|1>`: genesis (only `a0` funded), Aspen at 1, Blackburn at 2 or never, two
+    /// empty blocks, then a block is begun (height 3) and the `Ics20Withdrawal` fee set to zero.
+    async fn op_chain(&mut self, args: &[&str]) -> PResult<()> {
+        let kv = KeyValues::parse("chain", args)?;
+        let blackburn = match kv.req("bb")? {
+            "0" => 0,
+            "1" => 2,
+            other => return Err(format!("bad bb `{other}`")),
+        };
+        self.stash_chain();
+        self.began = false;
+        self.sent.clear();
+        self.events.clear();
+        self.current_bb = blackburn != 0;
+        if let Some(mut chain) = self.stash.remove(&self.current_bb) {
+            chain.reset_round();
+            self.h.chain = Some(chain);
+        } else {
+            let mark = self.h.out.len();
+            self.h
+                .run_line(&format!("genesis acct=a0:1 aspen=1 blackburn={blackburn}"))
+                .await;
+            self.h.run_line("advance 2").await;
+            let text = self.h.out[mark..].to_string();
+            self.h.out.truncate(mark);
+            if text != "genesis ok\nadvance height=2\n" {
+                if debug_enabled() {
+                    eprintln!("[verif] chain set-up failed: {text}");
+                }
+                self.h.chain = None;
+                self.emit("chain err");
+                return Ok(());
+            }
+        }
+        // Everything after this point happens inside one block that is never committed: set-up
+        // writes and executed operations are merged into the app's working state exactly like the
+        // transactions of a block are (`StateDelta` over the inter-block state, `App::apply`).
+        self.ensure_block().await?;
+        let chain = self.h.chain()?;
+        let mut delta = chain.app.new_state_delta();
+        delta
+            .put_fees(FeeComponents::<Ics20Withdrawal>::new(0, 0))
+            .map_err(|e| format!("{e:#}"))?;
+        chain.apply_delta(delta).await;
+        self.emit("chain ok");
+        Ok(())
+    }
+
+    /// `denoms <denom>...`: names for the dump (may be repeated).
+    fn op_denoms(&mut self, args: &[&str]) -> PResult<()> {
+        for token in args {
+            let trace = Self::trace(token)?;
+            let hash = trace.to_ibc_prefixed();
+            if self.by_hash.insert(hash, trace.to_string()).is_none() {
+                self.universe.push(trace);
+            }
+        }
+        self.emit("denoms ok");
+        Ok(())
+    }
+
+    /// `chan <N> cp=<M>`: an open `transfer` channel `channel-N` whose counterparty channel is
+    /// `channel-M`.
+    async fn op_chan(&mut self, args: &[&str]) -> PResult<()> {
+        use ibc_types::core::{
+            channel::{
+                channel::{
+                    Counterparty,
+                    Order,
+                    State,
+                },
+                ChannelEnd,
+                Version,
+            },
+            connection::ConnectionId,
+        };
+        use penumbra_ibc::component::ChannelStateWriteExt as _;
+
+        let [number, rest @ ..] = args else {
+            return Err("usage: chan <N> cp=<M>".to_string());
+        };
+        let number: u64 = number.parse().map_err(|_| "bad channel".to_string())?;
+        let kv = KeyValues::parse("chan", rest)?;
+        let counterparty: u64 = kv.num("cp")?;
+        let mark = self.h.out.len();
+        let channel_name = format!("channel-{number}");
+        self.h.op_ibcchan(&[channel_name.as_str()]).await?;
+        let ok = &self.h.out[mark..] == "ibcchan ok\n";
+        self.h.out.truncate(mark);
+        if !ok {
+            self.emit("chan err");
+            return Ok(());
+        }
+        let channel_end = ChannelEnd {
+            state: State::Open,
+            ordering: Order::Unordered,
+            remote: Counterparty::new(PortId::transfer(), Some(Self::channel_id(counterparty))),
+            connection_hops: vec![ConnectionId::new(number)],
+            version: Version::new("ics20-1".to_string()),
+            upgrade_sequence: 0,
+        };
+        let chain = self.h.chain()?;
+        let mut delta = chain.app.new_state_delta();
+        delta.put_channel(&Self::channel_id(number), &PortId::transfer(), channel_end);
+        chain.apply_delta(delta).await;
+        for id in [number, counterparty] {
+            if !self.channels.contains(&id) {
+                self.channels.push(id);
+            }
+        }
+        self.emit("chan ok");
+        Ok(())
+    }
+
+    /// Direct state writes: `reg <denom>`, `feeasset <denom>`, `bal <acct> <denom> <amount>`,
+    /// `esc <N> <denom> <amount>`, `bridge <acct> rollup=<k> asset=<denom> withdrawer=<acct>
+    /// [disabled=<0|1>]`, `dis <acct> <0|1>`.
+    async fn op_write(&mut self, op: &str, args: &[&str]) -> PResult<()> {
+        let names = &self.h.names;
+        let chain = self
+            .h
+            .chain
+            .as_mut()
+            .ok_or_else(|| "no chain".to_string())?;
+        let mut delta = chain.app.new_state_delta();
+        let report = |e: astria_eyre::eyre::Report| format!("{e:#}");
+        match (op, args) {
+            ("reg", [denom]) => {
+                delta.put_ibc_asset(Self::trace(denom)?).map_err(report)?;
+            }
+            ("feeasset", [denom]) => {
+                delta
+                    .put_allowed_fee_asset(&Self::trace(denom)?)
+                    .map_err(report)?;
+            }
+            ("bal", [account, denom, amount]) => {
+                let amount: u128 = amount.parse().map_err(|_| "bad amount".to_string())?;
+                delta
+                    .put_account_balance(&names.address(account)?, &Self::trace(denom)?, amount)
+                    .map_err(report)?;
+            }
+            ("esc", [channel, denom, amount]) => {
+                let channel: u64 = channel.parse().map_err(|_| "bad channel".to_string())?;
+                let amount: u128 = amount.parse().map_err(|_| "bad amount".to_string())?;
+                delta
+                    .put_ibc_channel_balance(
+                        &Self::channel_id(channel),
+                        &Self::trace(denom)?,
+                        amount,
+                    )
+                    .map_err(report)?;
+                if !self.channels.contains(&channel) {
+                    self.channels.push(channel);
+                }
+            }
+            ("bridge", [account, rest @ ..]) => {
+                let kv = KeyValues::parse("bridge", rest)?;
+                let address = names.address(account)?;
+                let rollup: u8 = kv.num("rollup")?;
+                let withdrawer = names.address(kv.req("withdrawer")?)?;
+                delta
+                    .put_bridge_account_rollup_id(&address, RollupId::new([rollup; 32]))
+                    .map_err(report)?;
+                delta
+                    .put_bridge_account_ibc_asset(
+                        &address,
+                        Self::trace(kv.req("asset")?)?.to_ibc_prefixed(),
+                    )
+                    .map_err(report)?;
+                delta
+                    .put_bridge_account_sudo_address(&address, withdrawer)
+                    .map_err(report)?;
+                delta
+                    .put_bridge_account_withdrawer_address(&address, withdrawer)
+                    .map_err(report)?;
+                match kv.opt("disabled").unwrap_or("-") {
+                    "-" => {}
+                    "0" => delta
+                        .put_bridge_account_disabled_status(&address, false)
+                        .map_err(report)?,
+                    "1" => delta
+                        .put_bridge_account_disabled_status(&address, true)
+                        .map_err(report)?,
+                    other => return Err(format!("bad disabled flag `{other}`")),
+                }
+            }
+            ("dis", [account, flag]) => {
+                let flag = match *flag {
+                    "0" => false,
+                    "1" => true,
+                    other => return Err(format!("bad flag `{other}`")),
+                };
+                delta
+                    .put_bridge_account_disabled_status(&names.address(account)?, flag)
+                    .map_err(report)?;
+            }
+            _ => return Err(format!("bad arguments for `{op}`")),
+        }
+        chain.apply_delta(delta).await;
+        self.emit(format!("{op} ok"));
+        Ok(())
+    }
+
+    // -----------------------------------------------------------------------------------------
+    // observation
+    // -----------------------------------------------------------------------------------------
+
+    async fn dump_state<S: StateRead>(&self, state: &S, prefix: &str, out: &mut String) {
+        let names = &self.h.names;
+        for index in DUMP_ACCOUNTS {
+            let address = names.addresses[index];
+            let mut entries: Vec<(String, u128)> = Vec::new();
+            let mut stream = std::pin::pin!(state.account_asset_balances(&address));
+            while let Some(entry) = stream.next().await {
+                match entry {
+                    Ok(asset_balance) if asset_balance.balance != 0 => {
+                        entries.push((
+                            self.show_asset(&asset_balance.asset),
+                            asset_balance.balance,
+                        ));
+                    }
+                    Ok(_) => {}
+                    Err(_) => entries.push(("!readerr".to_string(), 0)),
+                }
+            }
+            entries.sort();
+            for (asset, balance) in entries {
+                let _ = writeln!(out, "{prefix}bal a{index} {asset} {balance}");
+            }
+        }
+        let mut channels = self.channels.clone();
+        channels.sort_unstable();
+        for channel in channels {
+            let channel_id = Self::channel_id(channel);
+            let mut entries: Vec<(String, u128)> = Vec::new();
+            for trace in &self.universe {
+                match state.get_ibc_channel_balance(&channel_id, trace).await {
+                    Ok(0) => {}
+                    Ok(balance) => entries.push((trace.to_string(), balance)),
+                    Err(_) => entries.push((format!("!readerr-{trace}"), 0)),
+                }
+            }
+            entries.sort();
+            for (asset, balance) in entries {
+                let _ = writeln!(out, "{prefix}esc {channel} {asset} {balance}");
+            }
+        }
+        let mut registered: Vec<String> = Vec::new();
+        for trace in &self.universe {
+            if state.has_ibc_asset(trace).await.unwrap_or(false) {
+                registered.push(trace.to_string());
+            }
+        }
+        registered.sort();
+        for asset in registered {
+            let _ = writeln!(out, "{prefix}reg {asset}");
+        }
+        let deposits = state.get_cached_block_deposits();
+        let mut rollups: Vec<&RollupId> = deposits.keys().collect();
+        rollups.sort_by_key(|rollup_id| rollup_id.as_bytes().to_vec());
+        for rollup_id in rollups {
+            for deposit in &deposits[rollup_id] {
+                let _ = writeln!(
+                    out,
+                    "{prefix}dep {} {} {} {} {}",
+                    names.show_rollup(&deposit.rollup_id),
+                    names.show_address(&deposit.bridge_address.bytes()),
+                    deposit.amount,
+                    deposit.asset,
+                    show_dest(&deposit.destination_chain_address),
+                );
+            }
+        }
+    }
+
+    /// Canonical text of every `tx.deposit` event in `events`.
+    fn deposit_events(&self, events: &[Event]) -> Vec<String> {
+        let names = &self.h.names;
+        events
+            .iter()
+            .filter(|event| event.kind == "tx.deposit")
+            .map(|event| {
+                let get = |key: &str| attribute(event, key).unwrap_or_else(|| "?".to_string());
+                let bridge = get("bridgeAddress")
+                    .parse::<Address>()
+                    .map(|address| names.show_address(&address.bytes()))
+                    .unwrap_or_else(|_| "?".to_string());
+                let rollup = self
+                    .rollup_names
+                    .get(&get("rollupId"))
+                    .cloned()
+                    .unwrap_or_else(|| get("rollupId"));
+                format!(
+                    "{rollup} {bridge} {} {} {}",
+                    get("amount"),
+                    get("asset"),
+                    show_dest(&get("destinationChainAddress")),
+                )
+            })
+            .collect()
+    }
+
+    async fn dump_working(&mut self) -> PResult<()> {
+        let mut out = String::new();
+        {
+            let chain = self
+                .h
+                .chain
+                .as_ref()
+                .ok_or_else(|| "no chain".to_string())?;
+            self.dump_state(chain.app.state(), "", &mut out).await;
+        }
+        for event in &self.events {
+            let _ = writeln!(out, "ev {event}");
+        }
+        out.push_str("end\n");
+        self.h.out.push_str(&out);
+        Ok(())
+    }
+
+    async fn ensure_block(&mut self) -> PResult<()> {
+        if self.began {
+            return Ok(());
+        }
+        let mark = self.h.out.len();
+        self.h.op_begin().await?;
+        let ok = self.h.out[mark..].starts_with("begin height=");
+        self.h.out.truncate(mark);
+        if !ok {
+            return Err("could not begin a block".to_string());
+        }
+        self.began = true;
+        Ok(())
+    }
+
+    // -----------------------------------------------------------------------------------------
+    // outgoing withdrawal
+    // -----------------------------------------------------------------------------------------
+
+    /// `wd id=<k> from=<acct> chan=<N> denom=<denom|ibc:denom> amt=<u128> ret=<acct>
+    /// [compat=1] [bridge=<acct> evid=<s|-> blk=<n> rret=<s|->|len:<n>] [memo=<-|bad|wfr:<s>|wfrempty>]`
+    async fn op_wd(&mut self, args: &[&str]) -> PResult<()> {
+        let kv = KeyValues::parse("wd", args)?;
+        let id = kv.req("id")?.to_string();
+        let signer = self.h.names.account_index(kv.req("from")?)?;
+        let channel: u64 = kv.num("chan")?;
+        let denom = Self::denom(kv.req("denom")?)?;
+        let amount: u128 = kv.num("amt")?;
+        let return_address = self.h.names.address(kv.req("ret")?)?;
+        let bridge_address = self.h.names.opt_address(kv.opt("bridge").unwrap_or("-"))?;
+        let string_arg = |value: &str| -> String {
+            if value == "-" {
+                String::new()
+            } else if let Some(len) = value.strip_prefix("len:") {
+                "x".repeat(len.parse().unwrap_or(0))
+            } else {
+                value.to_string()
+            }
+        };
+        let memo = if bridge_address.is_some() || kv.opt("evid").is_some() {
+            serde_json::to_string(&Ics20WithdrawalFromRollup {
+                rollup_block_number: kv.num("blk")?,
+                rollup_withdrawal_event_id: string_arg(kv.req("evid")?),
+                rollup_return_address: string_arg(kv.req("rret")?),
+                memo: String::new(),
+            })
+            .map_err(|e| e.to_string())?
+        } else {
+            Self::refund_memo(kv.opt("memo").unwrap_or("-"))?
+        };
+        let action = Ics20Withdrawal {
+            amount,
+            denom,
+            destination_chain_address: "cosmos1destination".to_string(),
+            return_address,
+            timeout_height: IbcHeight::new(1, 1_000_000).map_err(|e| e.to_string())?,
+            timeout_time: u64::MAX / 2,
+            source_channel: Self::channel_id(channel),
+            fee_asset: "nria".parse().map_err(|_| "nria".to_string())?,
+            memo,
+            bridge_address,
+            use_compat_address: kv.opt("compat") == Some("1"),
+        };
+        self.ensure_block().await?;
+        let signing_key = &self.h.names.keys[signer];
+        let signer_address = self.h.names.addresses[signer];
+        let chain = self
+            .h
+            .chain
+            .as_mut()
+            .ok_or_else(|| "no chain".to_string())?;
+        let nonce = chain
+            .app
+            .state()
+            .get_account_nonce(&signer_address)
+            .await
+            .map_err(|e| format!("{e:#}"))?;
+        let body = TransactionBodyBuilder::new()
+            .nonce(nonce)
+            .chain_id(CHAIN_ID.to_string())
+            .actions(vec![action.into()])
+            .try_build()
+            .map_err(|e| error_chain(&e))?;
+        let bytes = Bytes::from(body.sign(signing_key).into_raw().encode_to_vec());
+        let outcome = match CheckedTransaction::new(bytes, chain.app.state()).await {
+            Err(error) => Err(error_chain(&error)),
+            Ok(tx) => chain
+                .app
+                .execute_transaction(Arc::new(tx))
+                .await
+                .map_err(|error| error_chain(&error)),
+        };
+        match outcome {
+            Ok(events) => {
+                let send = events
+                    .iter()
+                    .find(|event| event.kind == "send_packet")
+                    .ok_or_else(|| "no send_packet event".to_string())?;
+                let data = hex::decode(
+                    attribute(send, "packet_data_hex").ok_or_else(|| "no packet data".to_string())?,
+                )
+                .map_err(|e| e.to_string())?;
+                let get = |key: &str| attribute(send, key).unwrap_or_default();
+                let packet = Packet {
+                    sequence: Sequence(get("packet_sequence").parse().unwrap_or(0)),
+                    port_on_a: PortId(get("packet_src_port")),
+                    chan_on_a: ChannelId(get("packet_src_channel")),
+                    port_on_b: PortId(get("packet_dst_port")),
+                    chan_on_b: ChannelId(get("packet_dst_channel")),
+                    data,
+                    timeout_height_on_b: TimeoutHeight::Never,
+                    timeout_timestamp_on_b: Timestamp {
+                        time: None,
+                    },
+                };
+                let new_events = self.deposit_events(&events);
+                self.events.extend(new_events);
+                self.sent.insert(id.clone(), packet);
+                self.emit(format!("wd {id} ok"));
+            }
+            Err(text) => {
+                if debug_enabled() {
+                    eprintln!("[verif] wd {id}: {text}");
+                }
+                self.emit(format!("wd {id} err"));
+            }
+        }
+        self.dump_working().await
+    }
+
+    // -----------------------------------------------------------------------------------------
+    // incoming packet
+    // -----------------------------------------------------------------------------------------
+
+    /// Memo of an incoming transfer: `-`, `bad`, `dep:<s>`, `deplen:<n>`, `depempty`, `wfr:<s>`.
+    fn deposit_memo(token: &str) -> PResult<String> {
+        let deposit = |address: String| {
+            serde_json::to_string(&Ics20TransferDeposit {
+                rollup_deposit_address: address,
+            })
+            .map_err(|e| e.to_string())
+        };
+        if token == "-" {
+            Ok(String::new())
+        } else if token == "bad" {
+            Ok("not json".to_string())
+        } else if token == "depempty" {
+            Ok("{}".to_string())
+        } else if let Some(len) = token.strip_prefix("deplen:") {
+            deposit("x".repeat(len.parse().map_err(|_| "bad length".to_string())?))
+        } else if let Some(address) = token.strip_prefix("dep:") {
+            deposit(address.to_string())
+        } else if token.starts_with("wfr") {
+            Self::refund_memo(token)
+        } else {
+            Err(format!("bad memo `{token}`"))
+        }
+    }
+
+    /// Memo of an outgoing / refunded transfer: `-`, `bad`, `wfr:<s>`, `wfrempty`, `dep:<s>`.
+    fn refund_memo(token: &str) -> PResult<String> {
+        if token == "-" {
+            Ok(String::new())
+        } else if token == "bad" {
+            Ok("not json".to_string())
+        } else if token == "wfrempty" {
+            Ok("{}".to_string())
+        } else if let Some(address) = token.strip_prefix("wfr:") {
+            serde_json::to_string(&Ics20WithdrawalFromRollup {
+                rollup_block_number: 7,
+                rollup_withdrawal_event_id: "event".to_string(),
+                rollup_return_address: address.to_string(),
+                memo: String::new(),
+            })
+            .map_err(|e| e.to_string())
+        } else if token.starts_with("dep") {
+            Self::deposit_memo(token)
+        } else {
+            Err(format!("bad memo `{token}`"))
+        }
+    }
+
+    fn packet_data(
+        &self,
+        kv: &KeyValues<'_>,
+        receiver: String,
+        sender: String,
+        memo: String,
+    ) -> PResult<Vec<u8>> {
+        match kv.opt("raw") {
+            Some("bad") => return Ok(b"not json".to_vec()),
+            Some("empty") => return Ok(Vec::new()),
+            Some("long") => return Ok(vec![b'{'; 3000]),
+            Some(other) => return Err(format!("bad raw `{other}`")),
+            None => {}
+        }
+        let data = FungibleTokenPacketData {
+            denom: Self::packet_denom(kv.req("denom")?)?,
+            amount: match kv.req("amt")? {
+                "-" => String::new(),
+                other => other.to_string(),
+            },
+            sender,
+            receiver,
+            memo,
+        };
+        serde_json::to_vec(&data).map_err(|e| e.to_string())
+    }
+
+    /// `recv seq=<n> sp=<port> sc=<M> dp=<port> dc=<N> (raw=<bad|empty|long> | denom=<..>
+    /// amt=<str> to=<addr> memo=<memo>)`
+    async fn op_recv(&mut self, args: &[&str]) -> PResult<()> {
+        let kv = KeyValues::parse("recv", args)?;
+        let sequence: u64 = kv.num("seq")?;
+        let data = if kv.opt("raw").is_some() {
+            self.packet_data(&kv, String::new(), String::new(), String::new())?
+        } else {
+            self.packet_data(
+                &kv,
+                self.packet_address(kv.req("to")?)?,
+                "cosmos1sender".to_string(),
+                Self::deposit_memo(kv.req("memo")?)?,
+            )?
+        };
+        let packet = Packet {
+            sequence: Sequence(sequence),
+            port_on_a: PortId(kv.req("sp")?.to_string()),
+            chan_on_a: Self::channel_id(kv.num("sc")?),
+            port_on_b: PortId(kv.req("dp")?.to_string()),
+            chan_on_b: Self::channel_id(kv.num("dc")?),
+            data,
+            timeout_height_on_b: TimeoutHeight::Never,
+            timeout_timestamp_on_b: Timestamp {
+                time: None,
+            },
+        };
+        let msg = MsgRecvPacket {
+            packet,
+            proof_commitment_on_a: empty_proof(),
+            proof_height_on_a: IbcHeight::new(1, 1).map_err(|e| e.to_string())?,
+            signer: String::new(),
+        };
+        self.ensure_block().await?;
+        let tx_id = self.next_tx_id();
+        let chain = self
+            .h
+            .chain
+            .as_mut()
+            .ok_or_else(|| "no chain".to_string())?;
+        let mut delta = chain.app.new_state_delta();
+        delta.ephemeral_put_ibc_context(tx_id, 0);
+        if let Err(error) = Ics20Transfer::recv_packet_check(&mut delta, &msg).await {
+            if debug_enabled() {
+                eprintln!("[verif] recv {sequence} check: {error:#}");
+            }
+            drop(delta);
+            self.emit(format!("recv {sequence} rejected"));
+            return self.dump_working().await;
+        }
+        match Ics20Transfer::recv_packet_execute(&mut delta, &msg).await {
+            Ok(()) => {
+                let events = chain.app.apply(delta);
+                let ack = events
+                    .iter()
+                    .rev()
+                    .find(|event| event.kind == "write_acknowledgement")
+                    .and_then(|event| attribute(event, "packet_ack_hex"))
+                    .and_then(|text| hex::decode(text).ok())
+                    .and_then(|bytes| {
+                        serde_json::from_slice::<TokenTransferAcknowledgement>(&bytes).ok()
+                    });
+                if debug_enabled() {
+                    eprintln!("[verif] recv {sequence} ack: {ack:?}");
+                }
+                let word = match ack {
+                    Some(ack) if ack.is_successful() => "ok",
+                    Some(_) => "err",
+                    None => "none",
+                };
+                let new_events = self.deposit_events(&events);
+                self.events.extend(new_events);
+                self.emit(format!("recv {sequence} ack={word}"));
+            }
+            Err(error) => {
+                if debug_enabled() {
+                    eprintln!("[verif] recv {sequence} failed: {error:#}");
+                }
+                self.emit(format!("recv {sequence} fail"));
+                self.dump_dirty(delta).await;
+            }
+        }
+        self.dump_working().await
+    }
+
+    /// Prints what a failed callback left in its (about to be dropped) state delta.
+    async fn dump_dirty(
+        &mut self,
+        delta: cnidarium::StateDelta<super::InterBlockState>,
+    ) {
+        let mut out = String::new();
+        self.dump_state(&delta, "dirty ", &mut out).await;
+        let (_, mut cache) = delta.flatten();
+        let events = cache.take_events();
+        for event in self.events.iter().cloned().chain(self.deposit_events(&events)) {
+            let _ = writeln!(out, "dirty ev {event}");
+        }
+        self.h.out.push_str(&out);
+    }
+
+    // -----------------------------------------------------------------------------------------
+    // acknowledgement / timeout of a packet sent by the sequencer
+    // -----------------------------------------------------------------------------------------
+
+    /// `ack (pkt=<k> | sp=<port> sc=<N> denom=<..> amt=<str> sender=<addr> memo=<memo>
+    /// [raw=..]) res=<ok|err|bad>` and `timeout (pkt=<k> | sp=.. sc=.. ...)`.
+    async fn op_refund(&mut self, op: &str, args: &[&str]) -> PResult<()> {
+        let kv = KeyValues::parse(op, args)?;
+        let (label, packet) = if let Some(id) = kv.opt("pkt") {
+            match self.sent.get(id) {
+                Some(packet) => (id.to_string(), packet.clone()),
+                None => {
+                    self.emit(format!("{op} {id} unknown"));
+                    return Ok(());
+                }
+            }
+        } else {
+            let data = if kv.opt("raw").is_some() {
+                self.packet_data(&kv, String::new(), String::new(), String::new())?
+            } else {
+                self.packet_data(
+                    &kv,
+                    "cosmos1destination".to_string(),
+                    self.packet_address(kv.req("sender")?)?,
+                    Self::refund_memo(kv.req("memo")?)?,
+                )?
+            };
+            (
+                "-".to_string(),
+                Packet {
+                    sequence: Sequence(1),
+                    port_on_a: PortId(kv.req("sp")?.to_string()),
+                    chan_on_a: Self::channel_id(kv.num("sc")?),
+                    port_on_b: PortId::transfer(),
+                    chan_on_b: Self::channel_id(99),
+                    data,
+                    timeout_height_on_b: TimeoutHeight::Never,
+                    timeout_timestamp_on_b: Timestamp {
+                        time: None,
+                    },
+                },
+            )
+        };
+        self.ensure_block().await?;
+        let tx_id = self.next_tx_id();
+        let chain = self
+            .h
+            .chain
+            .as_mut()
+            .ok_or_else(|| "no chain".to_string())?;
+        let mut delta = chain.app.new_state_delta();
+        delta.ephemeral_put_ibc_context(tx_id, 0);
+        let height = IbcHeight::new(1, 1).map_err(|e| e.to_string())?;
+        let (checked, executed) = if op == "ack" {
+            let acknowledgement: Vec<u8> = match kv.req("res")? {
+                "ok" => TokenTransferAcknowledgement::success().into(),
+                "err" => TokenTransferAcknowledgement::Error("failed".to_string()).into(),
+                "bad" => b"junk".to_vec(),
+                other => return Err(format!("bad res `{other}`")),
+            };
+            let msg = MsgAcknowledgement {
+                packet,
+                acknowledgement,
+                proof_acked_on_b: empty_proof(),
+                proof_height_on_b: height,
+                signer: String::new(),
+            };
+            match Ics20Transfer::acknowledge_packet_check(&mut delta, &msg).await {
+                Err(error) => (Err(error), Ok(())),
+                Ok(()) => (
+                    Ok(()),
+                    Ics20Transfer::acknowledge_packet_execute(&mut delta, &msg).await,
+                ),
+            }
+        } else {
+            let msg = MsgTimeout {
+                packet,
+                next_seq_recv_on_b: Sequence(1),
+                proof_unreceived_on_b: empty_proof(),
+                proof_height_on_b: height,
+                signer: String::new(),
+            };
+            match Ics20Transfer::timeout_packet_check(&mut delta, &msg).await {
+                Err(error) => (Err(error), Ok(())),
+                Ok(()) => (
+                    Ok(()),
+                    Ics20Transfer::timeout_packet_execute(&mut delta, &msg).await,
+                ),
+            }
+        };
+        match (checked, executed) {
+            (Err(error), _) => {
+                if debug_enabled() {
+                    eprintln!("[verif] {op} {label} check: {error:#}");
+                }
+                drop(delta);
+                self.emit(format!("{op} {label} rejected"));
+            }
+            (Ok(()), Ok(())) => {
+                let events = chain.app.apply(delta);
+                let new_events = self.deposit_events(&events);
+                self.events.extend(new_events);
+                self.emit(format!("{op} {label} ok"));
+            }
+            (Ok(()), Err(error)) => {
+                if debug_enabled() {
+                    eprintln!("[verif] {op} {label} failed: {error:#}");
+                }
+                self.emit(format!("{op} {label} fail"));
+                self.dump_dirty(delta).await;
+            }
+        }
+        self.dump_working().await
+    }
+}
+
+#[tokio::test]
+async fn drive() {
+    let Ok(input_path) = std::env::var("VERIF_IN") else {
+        return;
+    };
+    let script = std::fs::read_to_string(&input_path).expect("VERIF_IN should be readable");
+    if debug_enabled() {
+        std::panic::set_hook(Box::new(|info| eprintln!("[verif] panic: {info}")));
+    } else {
+        std::panic::set_hook(Box::new(|_| {}));
+    }
+    let mut driver = Driver::new();
+    for line in script.lines() {
+        driver.run_line(line).await;
+    }
+    driver.h.chain = None;
+    driver.stash.clear();
+    let _ = std::panic::take_hook();
+    match std::env::var("VERIF_OUT") {
+        Ok(output_path) => {
+            std::fs::write(&output_path, &driver.h.out).expect("VERIF_OUT should be writable");
+        }
+        Err(_) => print!("{}", driver.h.out),
+    }
+}
